@@ -193,6 +193,9 @@ def unit_sequence_stateful(ctx, cls_name, examples, steps):
                                                     suppress_health_check=list(HealthCheck), report_multiple_bugs=False, print_blob=False, phases=[Phase.generate, Phase.shrink]))
     except AssertionError:
         check_sequence_model(ctx, cls_name, _LASTSEQ.get("ops", []))  # records the (shrunk) failing history
+    except hypothesis.errors.Flaky as e:
+        ctx.fail("C17.s_order", {"model": cls_name, "mode": "history"}, {"kind": "sequence", "model": cls_name, "ops": [list(o) for o in _LASTSEQ.get("ops", [])]}, f"{type(e).__name__}: not reproducible",
+                 "identical histories run identically", "the pipeline behaves differently between identical runs of the same history", CHK)
     ctx.cls("sequence_histories_" + cls_name, runs["n"])
     ctx.sample({"model": cls_name, "stateful_runs": runs["n"], "rules": ["init", "add", "readd (same object again)", "remove", "run"]})
 
